@@ -1,5 +1,149 @@
-use crate::{explore::Violation, repl::{ReplCell, ReplExec}, sim::ClientView};
+//! C16: pre-spawned client entities are adopted, not duplicated.
+use bevy::prelude::*;
+use bevy_replicon::shared::server_entity_map::ServerEntityMap;
 
-pub fn check_frame(_cell: &ReplCell, _x: &mut ReplExec, _c: usize, _view: &ClientView) -> Result<(), Violation> {
+use crate::{
+    cells,
+    check::{CellPlan, Tier, plan},
+    explore::Violation,
+    repl::{Env, MutMenu, Oracles, ReplCell, ReplExec},
+    sim::*,
+};
+
+/// Per-frame oracle for client `c`.
+pub fn check_frame(cell: &ReplCell, x: &mut ReplExec, c: usize, view: &ClientView) -> Result<(), Violation> {
+    let v = |oracle: &str, detail: String| Violation::new(cell.property, oracle, detail);
+    // No server entity may be represented twice: count client entities carrying an `A` payload
+    // of each slot.
+    let world = x.sim.clients[c].app.world_mut();
+    let mut q = world.query::<(Entity, &A)>();
+    let mut per_slot: std::collections::BTreeMap<u8, Vec<Entity>> = Default::default();
+    for (e, a) in q.iter(world) {
+        per_slot.entry(a.0[1]).or_default().push(e);
+    }
+    for (etag, ents) in &per_slot {
+        if ents.len() > 1 {
+            return Err(v(
+                "duplicated-entity",
+                format!("client c{c} holds {} entities with data of e{etag}: {ents:?}", ents.len()),
+            ));
+        }
+    }
+    for (&(pc, slot), &pre) in &x.sim.prespawned {
+        if pc != c {
+            continue;
+        }
+        let Some(server_entity) = x.sim.ent(slot) else { continue };
+        let app = &x.sim.clients[c].app;
+        let pre_alive = app.world().get_entity(pre).is_ok();
+        let mapped = app
+            .world()
+            .resource::<ServerEntityMap>()
+            .to_client()
+            .get(&server_entity)
+            .copied();
+        match mapped {
+            // While the pre-spawned entity exists, it is the one and only client entity for
+            // the server entity.
+            Some(m) if pre_alive => {
+                if m != pre {
+                    return Err(v(
+                        "not-adopted",
+                        format!(
+                            "client c{c}: server entity e{} is mapped to {m} although the client's pre-spawned {pre} is alive",
+                            slot + 1
+                        ),
+                    ));
+                }
+                if view.ents.get(&server_entity.to_bits()).is_some_and(|ce| !ce.marked) {
+                    return Err(v(
+                        "not-adopted",
+                        format!("client c{c}: adopted entity for e{} has no Replicated marker", slot + 1),
+                    ));
+                }
+            }
+            // The pre-spawned entity is gone (despawned by the client before the mapping
+            // arrived, or by replication): a fresh live entity is required.
+            Some(m) => {
+                if m == pre || app.world().get_entity(m).is_err() {
+                    return Err(v(
+                        "stale-prespawn",
+                        format!(
+                            "client c{c}: e{} is mapped to {m}, but the pre-spawned entity no longer exists; a fresh live entity is required",
+                            slot + 1
+                        ),
+                    ));
+                }
+            }
+            None => {}
+        }
+    }
     Ok(())
 }
+
+pub fn cells(tier: Tier) -> Vec<CellPlan> {
+    let q = tier.quick();
+    let mut v = Vec::new();
+
+    // Mapping registered in the same tick window as the spawn; two clients, only c0 pre-spawns.
+    let mut c = cells::base("same-window", "C16");
+    c.cfg.clients = vec![1200, 1200];
+    c.init = vec![Op::Spawn(0, cells::AB)];
+    c.alphabet = vec![
+        Op::Nop,
+        Op::MapPre(0, 1),
+        Op::DespawnPre(0, 1),
+        Op::Mut(1, TA),
+        Op::Ins(1, TB),
+        Op::Despawn(1),
+        Op::Mut(0, TA),
+        Op::Spawn(2, cells::M_A),
+        Op::Unmark(1),
+        Op::Mark(1),
+    ];
+    c.env = Env { hold_acks: false, hold_updates: 2, mutations: MutMenu::Hold, leftover_choice: false };
+    c.oracles = Oracles { c16: true, c03: true, c01: true, ..Default::default() };
+    c.rounds = if q { 3 } else { 4 };
+    v.push(plan(c, if q { 1 } else { 2 }, 2.0));
+
+    // Mapping registered ahead of replication: unmarked entity marked later.
+    let mut c = cells::base("early-map", "C16");
+    c.cfg.clients = vec![1200, 1200];
+    c.alphabet = vec![
+        Op::Nop,
+        Op::MapPreUnmarked(0, 1),
+        Op::Mark(1),
+        Op::DespawnPre(0, 1),
+        Op::Mut(1, TA),
+        Op::Ins(1, TB),
+        Op::Mut(0, TA),
+        Op::Despawn(1),
+    ];
+    c.env = Env { hold_acks: false, hold_updates: 2, mutations: MutMenu::Hold, leftover_choice: false };
+    c.oracles = Oracles { c16: true, c01: true, ..Default::default() };
+    c.rounds = if q { 3 } else { 4 };
+    v.push(plan(c, if q { 1 } else { 2 }, 2.0));
+
+    // Mapping registered while the entity is still hidden (whitelist), visibility granted later.
+    let mut c = cells::base("hidden-map", "C16");
+    c.cfg.vis = Vis::Whitelist;
+    c.cfg.clients = vec![1200, 1200];
+    c.init = vec![Op::Spawn(0, cells::AB), Op::Vis(0, 0, true), Op::Vis(1, 0, true)];
+    c.alphabet = vec![
+        Op::Nop,
+        Op::MapPre(0, 1),
+        Op::Vis(0, 1, true),
+        Op::Vis(1, 1, true),
+        Op::Vis(0, 1, false),
+        Op::DespawnPre(0, 1),
+        Op::Mut(1, TA),
+        Op::Ins(1, TB),
+    ];
+    c.env = Env { hold_acks: false, hold_updates: 1, mutations: MutMenu::Hold, leftover_choice: false };
+    c.oracles = Oracles { c16: true, c01: true, ..Default::default() };
+    c.rounds = if q { 3 } else { 4 };
+    v.push(plan(c, if q { 1 } else { 1 }, 2.0));
+    v
+}
+
+pub const RULE: &str = "all timings of the pre-spawn mapping relative to the spawn (same frame, earlier frame of the tick window, ahead of the marker, ahead of visibility), extra structural and mutation traffic on the same and other entities, client-side despawn of the pre-spawned entity before the mapping arrives, a second client without mapping, x reliable-channel delays with <= d deviations; after every client frame: one client entity per server entity, adoption of the pre-spawned entity, fresh entity otherwise; non-trivial = at least one structural operation";
